@@ -111,6 +111,9 @@ func (e *Engine) loopHead(st *State, fr *Frame, li *loopInfo) (stop bool) {
 	for _, r := range lregs {
 		e.havocRegionR(st, fr, r, nil)
 	}
+	if loopReacquires(li) {
+		e.rehavocHeldAtLoopHead(st)
+	}
 	if li.hasCall || len(ls.Modifies) > 0 {
 		na := e.fresh("alloc", IntS)
 		st.assume(Ge(na, st.alloc))
